@@ -83,6 +83,11 @@ Proof.
   rewrite Z_mod_plus_full. apply Z.mod_small. lia.
 Qed.
 
+Lemma egcd_S f r0 r1 s0 s1 :
+  egcd (S f) r0 r1 s0 s1 =
+  if r1 =? 0 then (r0, s0) else egcd f r1 (r0 - r0 / r1 * r1) s1 (s0 - r0 / r1 * s1).
+Proof. reflexivity. Qed.
+
 Section ZqFieldLaws.
   Variable q : Z.
   Hypothesis q_gt1 : 1 < q.
@@ -103,11 +108,10 @@ Section ZqFieldLaws.
   Lemma zq_inv_0 : zq_inv (zq_zero : Zq q) = zq_zero.
   Proof.
     apply zq_eq. unfold zq_inv, zq_zero. rewrite !zval_of_Z, Z.mod_0_l by lia.
-    unfold inv_mod. 
-    (* egcd on (0, q): one step gives (q, 0), g = q <> 1 *)
-    cbn [egcd]. assert (Hq0 : (q =? 0) = false) by (apply Z.eqb_neq; lia). rewrite Hq0.
+    unfold inv_mod. change 800%nat with (S (S 798)).
+    rewrite egcd_S. assert (Hq0 : (q =? 0) = false) by (apply Z.eqb_neq; lia). rewrite Hq0.
     replace (0 / q) with 0 by (symmetry; apply Z.div_0_l; lia).
-    cbn [egcd]. rewrite Z.eqb_refl.
+    rewrite egcd_S. replace (0 - 0 * q) with 0 by lia. rewrite Z.eqb_refl.
     assert (Hq1 : (q =? 1) = false) by (apply Z.eqb_neq; lia). rewrite Hq1. reflexivity.
   Qed.
 
